@@ -109,6 +109,18 @@ def check(plan, res):
     if v: return v
     v += spin_violations(PROP, res)
     evs = res.events
+    # a user is served as long as the connection is there: the driver does not hang up on a client that neither closed nor
+    # reset the connection (an interrupted read is no end of the connection)
+    ended = set()
+    for e in evs:
+        if e.kind == 'recv' and (' eof' in e.rest or ' rst' in e.rest): ended.add(int(e.kv()['conn']))
+        elif e.kind == 'send' and ('epipe' in e.rest or 'reset' in e.rest): ended.add(int(e.kv()['conn']))
+        elif e.kind == 'step' and re.search(r'step (eof|rst) (\d+)', e.rest): ended.add(int(re.search(r'step (eof|rst) (\d+)', e.rest).group(2)))
+        elif e.kind == 'close':
+            c = int(e.kv()['conn'])
+            if c not in ended:
+                v.append(Violation(PROP, 'hangup', 'the driver closed connection %d although the client had neither closed nor reset it' % c, PROP + '/connection/closed-by-driver'))
+                break
     # bytes sent per conn in plan order
     sent = {}
     for cyc in plan.cycles:
